@@ -32,6 +32,13 @@ pub(crate) struct Path {
 
     /// How to reset the `exploring` state
     exploring_on_start: bool,
+
+    /// Maximum number of branches of an execution.
+    ///
+    /// This is configuration, not part of the explored path: it is not
+    /// stored in a checkpoint and is set again after loading one.
+    #[cfg_attr(feature = "checkpoint", serde(skip))]
+    max_branches: usize,
 }
 
 #[derive(Debug)]
@@ -107,14 +114,14 @@ pub(crate) enum Thread {
 }
 
 macro_rules! assert_path_len {
-    ($branches:expr) => {{
+    ($path:expr) => {{
         assert!(
             // if we are panicking, we may be performing a branch due to a
             // `Drop` impl (e.g., for `Arc`, or for a user type that does an
             // atomic operation in its `Drop` impl). if that's the case,
             // asserting this again will double panic. therefore, short-circuit
             // the assertion if the thread is panicking.
-            $branches.len() < $branches.capacity() || std::thread::panicking(),
+            $path.branches.len() < $path.max_branches || std::thread::panicking(),
             "Model exceeded maximum number of branches. This is often caused \
              by an algorithm requiring the processor to make progress, e.g. \
              spin locks.",
@@ -133,6 +140,7 @@ impl Path {
             exploring,
             skipping: false,
             exploring_on_start: exploring,
+            max_branches,
         }
     }
 
@@ -156,6 +164,7 @@ impl Path {
     }
 
     pub(crate) fn set_max_branches(&mut self, max_branches: usize) {
+        self.max_branches = max_branches;
         self.branches
             .reserve_exact(max_branches - self.branches.len());
     }
@@ -172,7 +181,7 @@ impl Path {
 
     /// Push a new atomic-load branch
     pub(super) fn push_load(&mut self, seed: &[u8]) {
-        assert_path_len!(self.branches);
+        assert_path_len!(self);
 
         let load_ref = self.branches.insert(Load {
             values: [0; MAX_ATOMIC_HISTORY],
@@ -219,7 +228,7 @@ impl Path {
     /// Branch on spurious notifications
     pub(super) fn branch_spurious(&mut self) -> bool {
         if self.is_traversed() {
-            assert_path_len!(self.branches);
+            assert_path_len!(self);
 
             self.branches.insert(Spurious {
                 spur: false,
@@ -244,7 +253,7 @@ impl Path {
         seed: impl ExactSizeIterator<Item = Thread>,
     ) -> Option<thread::Id> {
         if self.is_traversed() {
-            assert_path_len!(self.branches);
+            assert_path_len!(self);
 
             // Find the last thread scheduling branch in the path
             let prev = self.last_schedule();
